@@ -30,6 +30,9 @@ from .core import StopPath
 from .lists import SymRange, SeqList, ArrList, EnumView, AbsList
 
 
+LOOP_INTERNAL = "loop-invariant obligation (the counter-model of an inductive step need not be a reachable state)"
+
+
 def loop_ordinal(func, node):
     loops = [n for n in ast.walk(func.node) if isinstance(n, (ast.For, ast.While))]
     loops.sort(key=lambda n: (n.lineno, n.col_offset))
@@ -45,23 +48,25 @@ class Forall:
         self.name, self.lo, self.hi, self.body = name, lo, hi, body
 
     def instance(self, q):
+        if self.lo is None:
+            return self.body(q)             # quantified over all integers
         return sym.Implies(And(self.lo <= q, q < self.hi), self.body(q))
 
 
-def prove_forall(env, path, clause, goal, facts, props, extra_instances=(), hyps=None):
+def prove_forall(env, path, clause, goal, facts, props, extra_instances=(), hyps=None, internal=None):
     """skolemise `goal` with a fresh index q and prove
           (lo <= q < hi) and (instances of every fact at q and at extra_instances(q))  ==>  body(q)
     as ONE implication: nothing is added to the path condition (an empty range must not make the path vacuous)."""
     path.fresh += 1
     q = SymInt(z3.Int("q!%d" % path.fresh))
-    hs = [goal.lo <= q, q < goal.hi]
+    hs = [goal.lo <= q, q < goal.hi] if goal.lo is not None else []
     for f in facts:
         hs.append(f.instance(q))
         for t in (extra_instances(q) if extra_instances else ()):
             hs.append(f.instance(t))
     if hyps is not None:
         hs.extend(hyps(q))
-    return env.ensure(clause, sym.Implies(And(*hs), goal.body(q)), props)
+    return env.ensure(clause, sym.Implies(And(*hs), goal.body(q)), props, internal=internal)
 
 
 class LoopCtx:
@@ -172,10 +177,10 @@ class Verifier:
             p = cur()
             for item in spec.inv(ctx, a, g0):
                 if isinstance(item, Forall):
-                    prove_forall(env, p, "%s::inv-init:%s" % (name, item.name), item, [], spec.props,
+                    prove_forall(env, p, "%s::inv-init:%s" % (name, item.name), item, [], spec.props, internal=LOOP_INTERNAL,
                                  hyps=(lambda q: spec.hyps(ctx, a, q)) if spec.hyps else None)
                 else:
-                    env.ensure("%s::inv-init:%s" % (name, item[0]), item[1], spec.props)
+                    env.ensure("%s::inv-init:%s" % (name, item[0]), item[1], spec.props, internal=LOOP_INTERNAL)
             p.fresh += 1
             choose = z3.Bool("cut!%d" % p.fresh)
             ghost = spec.havoc(ctx)
@@ -194,12 +199,12 @@ class Verifier:
                     for c in spec.assume(ctx, i):
                         p.assume(c)
                 interp.assign(node.target, elem(i), frame)
+                self.facts.extend(facts)          # the invariant's quantified facts are available to contracts called in the body
                 r = interp.exec_block(node.body, frame)
                 if r is not None:
                     if r[0] == "return":
                         # the body leaves the function at an arbitrary iteration i: the invariant at i (assumed above) and
                         # its quantified facts carry over to the caller's post-condition; nothing to re-establish
-                        self.facts.extend(facts)
                         self.exit_index = i
                         return (r,)
                     raise EngineError("break/continue inside a cut loop")
@@ -207,9 +212,9 @@ class Verifier:
                 for item in spec.inv(ctx, i + 1, g2):
                     if isinstance(item, Forall):
                         prove_forall(env, p, "%s::inv-step:%s" % (name, item.name), item, [f for f in facts if f.name == item.name],
-                                     spec.props, hyps=(lambda q: spec.hyps(ctx, i, q)) if spec.hyps else None)
+                                     spec.props, internal=LOOP_INTERNAL, hyps=(lambda q: spec.hyps(ctx, i, q)) if spec.hyps else None)
                     else:
-                        env.ensure("%s::inv-step:%s" % (name, item[0]), item[1], spec.props)
+                        env.ensure("%s::inv-step:%s" % (name, item[0]), item[1], spec.props, internal=LOOP_INTERNAL)
                 raise StopPath()
             # ---- exit
             for item in spec.inv(ctx, b, ghost):
@@ -229,10 +234,10 @@ class Verifier:
         g0 = spec.init(ctx)
         for item in spec.inv(ctx, spec.index(ctx), g0):
             if isinstance(item, Forall):
-                prove_forall(env, p, "%s::inv-init:%s" % (name, item.name), item, [], spec.props,
+                prove_forall(env, p, "%s::inv-init:%s" % (name, item.name), item, [], spec.props, internal=LOOP_INTERNAL,
                              hyps=(lambda q: spec.hyps(ctx, spec.index(ctx), q)) if spec.hyps else None)
             else:
-                env.ensure("%s::inv-init:%s" % (name, item[0]), item[1], spec.props)
+                env.ensure("%s::inv-init:%s" % (name, item[0]), item[1], spec.props, internal=LOOP_INTERNAL)
         p.fresh += 1
         choose = z3.Bool("cut!%d" % p.fresh)
         ghost = spec.havoc(ctx)
@@ -261,13 +266,13 @@ class Verifier:
             for item in spec.inv(ctx, i2, g2):
                 if isinstance(item, Forall):
                     prove_forall(env, p, "%s::inv-step:%s" % (name, item.name), item, list(facts),
-                                 spec.props, hyps=(lambda q: spec.hyps(ctx, i, q)) if spec.hyps else None,
+                                 spec.props, internal=LOOP_INTERNAL, hyps=(lambda q: spec.hyps(ctx, i, q)) if spec.hyps else None,
                                  extra_instances=(lambda q: spec.instances(ctx, i, q)) if getattr(spec, "instances", None) else ())
                 else:
-                    env.ensure("%s::inv-step:%s" % (name, item[0]), item[1], spec.props)
+                    env.ensure("%s::inv-step:%s" % (name, item[0]), item[1], spec.props, internal=LOOP_INTERNAL)
             if spec.variant:
                 var1 = spec.variant(ctx)
-                env.ensure("%s::variant" % name, And(var1 < var0, var1 >= 0), tuple(spec.props) + ("C13",))
+                env.ensure("%s::variant" % name, And(var1 < var0, var1 >= 0), tuple(spec.props) + ("C13",), internal=LOOP_INTERNAL)
             raise StopPath()
         if interp.truth(interp.eval(node.test, frame)):
             raise sym.PathAbort()
